@@ -95,7 +95,7 @@ Definition opt_bind {A B} (o : option A) (f : A -> option B) : option B :=
 
 Definition xstep (s0 : st) (x : xl) : option st :=
   match x with
-  | XSub c f t oF oT => step s0 (Subscribe (n c) (accepts f) (n t) oF oT)
+  | XSub c f t oF oT => step s0 (Subscribe (n c) (accepts f) t oF oT)
   | XPub m vis =>
       let p := npub s0 in
       opt_bind (step s0 (PubBegin m)) (fun s1 =>
